@@ -483,6 +483,39 @@ func generate() {
 			}
 		}
 	}
+	// ---- E10: the board cache is being rebuilt by another process (Shm.BBusyState held) ---------------------
+	// (a) held for a whole request on a dense table: the request is refused with ErrBusy after its record was
+	//     appended; the requests made after the flag is released must be coherent again
+	busyTables := []int{3}
+	if run.Thorough() {
+		busyTables = []int{1, 3, 12, MAXB - 2}
+	}
+	for _, n := range busyTables {
+		do(resetFor(mkTable(nil, n, nil, true), histOpt{}))
+		do("busy on")
+		do(baseReq(sysop, 1, "Alpha").line())
+		do("busy off")
+		do(baseReq(sysop, 1, "b2").line())
+		do(baseReq(sysop, 1, "ALPHA").line())
+		do(baseReq(sysop, 1, "B2").line())
+		do(baseReq(brdman, 1, "x_y").line())
+	}
+	// (b) held for 1.5 s (longer than the wait of the duplicate lookup, shorter than the following one) while a
+	//     case variant of an existing name is requested: still a duplicate
+	windows := []int{1500}
+	if run.Thorough() {
+		windows = []int{1300, 1500, 1700}
+	}
+	for _, ms := range windows {
+		do(resetFor(mkTable(nil, 3, nil, true), histOpt{}))
+		do(fmt.Sprintf("busy %d", ms))
+		do(baseReq(sysop, 1, "BRD002").line())
+		do(baseReq(sysop, 1, "Alpha").line())
+		do(resetFor(mkTable(nil, 5, []int{3}, true), histOpt{}))
+		do(fmt.Sprintf("busy %d", ms))
+		do(baseReq(brdman, 1, "classb").line())
+		do(baseReq(sysop, 1, "Alpha").line())
+	}
 	// ---- random histories ---------------------------------------------------------------------------
 	nHist, maxLen := 160, 8
 	if run.Thorough() {
@@ -554,7 +587,7 @@ func generate() {
 		"create 5359534f50 16384 1 1 416c706861 434c5320 74 nil 0 0 0 0",
 		"create 5359534f50 16384 1 2147483648 416c706861 434c5320 74 nil 0 0 0 0 1",
 		"reset zz - - - 1 0 0", "reset - - - - 1 256 0", "reset - - - - 1 0 1 c:41:-:-:0:0:0", "reset - - - - 1 0 1 x:41:-:-:0:0:0:0",
-		"layout now", "bcreate", "bcreate 6162 1 6162 - - - 0 0 0 0", "bcreate 6162 1 6162 - - zz 0 0 0 0 1", "bcreate 6162 1 6162 - - - 0 0 0 0 x", "newbm", "newbm zz", "newbm 6162 6364",
+		"layout now", "busy", "busy maybe", "busy 12345", "bcreate", "bcreate 6162 1 6162 - - - 0 0 0 0", "bcreate 6162 1 6162 - - zz 0 0 0 0 1", "bcreate 6162 1 6162 - - - 0 0 0 0 x", "newbm", "newbm zz", "newbm 6162 6364",
 	} {
 		do(l)
 	}
